@@ -163,6 +163,33 @@ def generate(rng, tier, index):
     return plan
 
 
+def leaf_truncated(frame):
+    """True iff some primitive (non-structure) item declares more value
+    bytes than its enclosing structure holds, i.e. part of the data the
+    request announces is simply not there. (A structure whose own length
+    field is off while all of its children are complete is only slack; the
+    real decoder clamps it and nothing is missing.) Independent of kmip."""
+    import struct as _s
+    buf = bytes(frame)
+
+    def walk(pos, end, depth):
+        while end - pos >= 8 and depth < 80:
+            typ = buf[pos + 3]
+            ln = _s.unpack_from('!I', buf, pos + 4)[0]
+            vstart = pos + 8
+            if typ == 1:
+                vend = min(vstart + ln, end)
+                if walk(vstart, vend, depth + 1):
+                    return True
+                pos = vstart + ln + ((8 - ln % 8) % 8)
+            else:
+                if vstart + ln > end:
+                    return True
+                pos = vstart + ln + ((8 - ln % 8) % 8)
+        return False
+    return walk(0, len(buf), 0)
+
+
 def decodable(frame):
     from kmip.core import enums, utils
     from kmip.core.messages import messages
@@ -394,6 +421,11 @@ def execute(plan):
                      decodable=dec[i])
                 continue
             rp = reqs.Response(x['sent'][0])
+            if dec[i] and leaf_truncated(f) and (
+                    x['changed'] or any(it['status'] == 0
+                                        for it in rp.items)):
+                flag('truncated-value-executed', why=None,
+                     frame=f.hex()[:400], result=rp.plain())
             if not dec[i]:
                 if x['entered']:
                     flag('undecodable-request-reached-engine', why=None,
